@@ -19,6 +19,7 @@
 
 #include "h_common.h"
 
+#include <algorithm>
 #include <cinttypes>
 
 namespace {
@@ -138,6 +139,22 @@ std::string diffRequest(const ReqOutcome &one, const ReqOutcome &inc)
     return "";
 }
 
+/// the schedule without the cuts that fall between the CR and the LF of a leading empty line ((LF | CRLF)* prefix of the input)
+hx::Cuts withoutLeadingCrLfSplits(const std::string &in, const hx::Cuts &cuts)
+{
+    std::vector<size_t> triggers;
+    size_t p = 0;
+    while (p < in.size()) {
+        if (in[p] == '\n') { ++p; continue; }
+        if (in[p] == '\r' && p + 1 < in.size() && in[p + 1] == '\n') { triggers.push_back(p + 1); p += 2; continue; }
+        break;
+    }
+    hx::Cuts out;
+    for (const auto c : cuts.at)
+        if (std::find(triggers.begin(), triggers.end(), c) == triggers.end()) out.at.push_back(c);
+    return out;
+}
+
 // case line: <id> <flags> <segseed> <hex input>      flags bit0: RequestParser(preserveParsed=true)
 int runC21(const std::vector<std::string> &args)
 {
@@ -153,25 +170,43 @@ int runC21(const std::vector<std::string> &args)
         const uint64_t seed = strtoull(f[2].c_str(), nullptr, 10);
         const ReqOutcome one = driveRequest(in, hx::Cuts(), preserve);
         ++nCases;
-        size_t bad = 0;
+        size_t bad = 0, badKnown = 0;
         const size_t nSched = hx::scheduleCount(in.size(), prm.kRandom, prm.twoSplitMax);
         for (size_t r = 0; r < nSched; ++r) {
-            const auto cuts = hx::schedule(seed, in.size(), r, prm.twoSplitMax, prm.byteMax);
+            auto cuts = hx::schedule(seed, in.size(), r, prm.twoSplitMax, prm.byteMax);
             if (cuts.at.empty())
                 continue;
-            const ReqOutcome inc = driveRequest(in, cuts, preserve);
+            ReqOutcome inc = driveRequest(in, cuts, preserve);
             ++nRuns;
             std::string d = diffRequest(one, inc);
             if (d.empty() && inc.kind == kOk && inc.parsedKnown && !inc.parsedMatches)
                 d = "parsed-bytes";
-            if (!d.empty() && !bad++)
+            if (d.empty())
+                continue;
+            // Observed on the unchanged tree (known_findings.json): a delivery that ends between the CR and the LF of a leading empty
+            // line. Re-run the same schedule without exactly those cuts: only if the difference disappears is it that finding.
+            const hx::Cuts avoid = withoutLeadingCrLfSplits(in, cuts);
+            if (avoid.at.size() != cuts.at.size()) {
+                const ReqOutcome inc2 = driveRequest(in, avoid, preserve);
+                ++nRuns;
+                const std::string d2 = diffRequest(one, inc2);
+                if (d2.empty()) {
+                    if (!badKnown++)
+                        viol(id, "seg-dependent:lone-CR-of-leading-CRLF-then-LF", fmt("cuts=%s\tone=%s\tinc=%s", cuts.describe().c_str(), one.str().c_str(), inc.str().c_str()));
+                    continue;
+                }
+                cuts = avoid;
+                inc = inc2;
+                d = d2;
+            }
+            if (!bad++)
                 viol(id, "seg-dependent:" + d, fmt("cuts=%s\tone=%s\tinc=%s", cuts.describe().c_str(), one.str().c_str(), inc.str().c_str()));
         }
         if (one.kind == kExc)
             viol(id, "exception", one.exc);
         if (one.kind == kOk && one.parsedKnown && !one.parsedMatches)
             viol(id, "parsed-bytes-oneshot", one.str());
-        vsim::hist("RES\t%s\t%s\t%zu\t%zu", id.c_str(), one.str().c_str(), nSched, bad);
+        vsim::hist("RES\t%s\t%s\t%zu\t%zu", id.c_str(), one.str().c_str(), nSched, bad + badKnown);
     }
     vsim::probe("h.cases", nCases);
     vsim::probe("h.schedules", nRuns);
